@@ -71,7 +71,7 @@ def build(chk):
     rd = Rd(chk)
     codes_quick = ['QCQ', 'LCL', 'QBN', 'DIB', 'CML', 'QGD', 'LGC', 'QIQ', 'LBN']
     codes = codes_quick if chk.tier == 'quick' else [o + v + c for o in 'LDCQ' for v in 'CBMIG' for c in 'NBLDCQ']
-    chk.bounds = {'models': '2 variables, 0-2 constraints (the property quantifies 5 x 4); problem-type codes: ' + (', '.join(codes) if chk.tier == 'quick' else 'all 120'),
+    chk.bounds = {'models': '2 variables, 0-2 constraints for every listed code; thorough tier also 4 variables x 3 constraints for six codes (the property quantifies 5 x 4); problem-type codes: ' + (', '.join(codes) if chk.tier == 'quick' else 'all 120'),
                   'numbers': 'Q^0 / Q^i lower-triangle entries, default and non-default b^0, q^0, b^i, c_l, c_u, bounds: symbolic reals; infinity value 1e30 (concrete); bounds / sides at or beyond it by explored choice',
                   'malformed': 'bad type letter, bad sense, bad variable type, non-number, premature end of file, count larger than the remaining lines, index 0 / index beyond the size'}
     chk.assumptions += ['lexing modelled as in C17 (lines, split_whitespace, splitn with the real closure, trim, starts_with, FromStr)', 'R-model', 'HashMap iteration order canonical',
@@ -84,7 +84,9 @@ def build(chk):
             return r
         return P.it.run_body(convert, [r.f[0]])
 
-    def mk_model(P, code):
+    def mk_model(P, code, wide=False):
+        if wide:
+            return mk_model_wide(P, code)
         T = Tok(P)
         vals = {}
 
@@ -114,6 +116,39 @@ def build(chk):
         m['vt'] = [(2, '1')] if V in 'MG' else []
         m['var_names'] = [(2, 'second')]
         m['con_names'] = [(1, 'first_con')] if hasc else []
+        return m, vals
+
+    def mk_model_wide(P, code):
+        """4 variables x 3 constraints (thorough tier): more entries per section, several non-default entries per list"""
+        T = Tok(P)
+        vals = {}
+
+        def num(name, bounded=True):
+            k, v = T.num(name)
+            if bounded:
+                P.ctx.assume(z3.And(v.r > -1e20, v.r < 1e20))
+            vals[k] = v
+            return k
+        O, V, C = code
+        hasc = C not in 'NB'
+        m = {'name': 'wide', 'type': code, 'sense': ['minimize', 'Maximize'][P.choose(2)], 'n': 4, 'm': 3 if hasc else 0, 'infinity': INF, 'comment': True}
+        m['q0'] = [] if O == 'L' else [(1, 1, num('q11')), (2, 1, num('q21')), (3, 2, num('q32')), (4, 1, num('q41')), (4, 4, num('q44'))] if O != 'D' else [(2, 2, num('q22')), (4, 4, num('q44'))]
+        m['b0_default'] = ['0.0', num('b0d')][P.choose(2)]
+        m['b0'] = [(2, num('b02')), (4, num('b04'))]
+        m['q0_const'] = num('q0')
+        m['qs'] = [[(2, 2, num('c1q22')), (3, 1, num('c1q31'))], [(4, 3, num('c2q43'))], []] if hasc and C != 'L' else [[], [], []]
+        m['bs'] = [[(1, num('c1b1'))], [(1, num('c2b1')), (4, num('c2b4'))], [(3, num('c3b3'))]] if hasc else [[], [], []]
+        side = P.choose(3) if hasc else 0
+        m['cl_default'], m['cu_default'] = num('cld'), num('cud')
+        m['cl'] = ([(1, '-' + INF)] if side == 1 else []) + [(3, num('cl3'))]
+        m['cu'] = [(1, INF)] if side == 2 else [(1, num('cu1'))]
+        m['lb_default'], m['ub_default'] = num('lbd'), [num('ubd'), INF][P.choose(2)]
+        m['lb'] = [(2, '-' + INF), (4, num('lb4'))]
+        m['ub'] = [(1, num('ub1')), (3, INF)]
+        m['vt_default'] = ['0', '2'][P.choose(2)] if V in 'MG' else '0'
+        m['vt'] = [(2, '1'), (3, '2')] if V in 'MG' else []
+        m['var_names'] = [(2, 'second'), (4, 'fourth')]
+        m['con_names'] = [(1, 'first_con'), (3, 'third_con')] if hasc else []
         return m, vals
 
     def fv_of(tok, vals):
@@ -177,9 +212,9 @@ def build(chk):
             vars_.append((kind, lo, hi, dict(m['var_names']).get(i + 1)))
         return {'objective': obj, 'cons': cons, 'vars': vars_, 'sense': 2 if m['sense'].lower() == 'maximize' else 1}
 
-    def mk(code):
+    def mk(code, wide=False):
         def h(P):
-            m, vals = mk_model(P, code)
+            m, vals = mk_model(P, code, wide)
             lines = render(m)
             exp = expected(m, vals)
 
@@ -260,6 +295,9 @@ def build(chk):
 
     for code in codes:
         chk.harness(f'import:{code}', mk(code), max_paths=6000)
+    if chk.tier == 'thorough':
+        for code in ['QMQ', 'QCL', 'DGD', 'LIL', 'CBC', 'QGN']:
+            chk.harness(f'import-wide:{code}', mk(code, True), max_paths=6000)
 
     FAULTS = ['bad-type-letter', 'bad-sense', 'bad-var-type', 'non-number', 'eof', 'count-too-large', 'missing-value', 'index-zero', 'index-too-large']
 
